@@ -297,6 +297,18 @@ class TableSUT:
                 body.insert(fresh, position=idx)
             self.table = fresh
 
+    def replace_from_xml(self, xml):
+        from odfdo import Element
+
+        fresh = Element.from_tag(xml)
+        if self.doc is not None:
+            body = self.doc.body
+            old = self.table
+            idx = body.index(old)
+            body.delete(old)
+            body.insert(fresh, position=idx)
+        self.table = fresh
+
     def position(self):
         """index of the table among the tables of the document body"""
         for i, t in enumerate(self.doc.body.get_tables()):
